@@ -262,3 +262,67 @@ Fixpoint bn_eqb (a b : list (bool * nat)) : bool :=
   | (x, n) :: a', (y, m) :: b' => Bool.eqb x y && Nat.eqb n m && bn_eqb a' b'
   | _, _ => false
   end.
+
+(* ==== round 3 ========================================================================= *)
+
+(* ---- which operator a 1D route applies for the caller's (transpose, dagger) ---------- *)
+Inductive opkind := OpG | OpGT | OpGconj | OpGdag.
+
+Definition opkind_eqb (a b : opkind) : bool :=
+  match a, b with OpG, OpG | OpGT, OpGT | OpGconj, OpGconj | OpGdag, OpGdag => true | _, _ => false end.
+
+(* (conjugate the array?, transposed wiring?) -> the operator applied *)
+Definition op_of (o : bool * bool) : opkind :=
+  match o with
+  | (false, false) => OpG | (false, true) => OpGT | (true, false) => OpGconj | (true, true) => OpGdag
+  end.
+
+(* documented meaning of the two flags: dagger -> G^dagger (transpose is implied), transpose -> G^T *)
+Definition spec_op (transpose dagger : bool) : opkind :=
+  if dagger then OpGdag else if transpose then OpGT else OpG.
+
+(* gate_TN_1D has no transpose / dagger parameters of its own: both flags travel inside
+   the compress_opts keywords.
+   RAutoSwap : gate_with_auto_swap(opts..) -> gate_split_(opts..) -> gate_inds(contract='split',
+               opts..), where they are named parameters again                  -> gate_opts
+   RNonlocal : gate_nonlocal(opts..): `transpose` is a named parameter (wiring of the sub-MPO).
+               `dagger` is a named parameter only if the signature has it (nl_dagger, read off the
+               implementation's signature by the harness); otherwise it stays in compress_opts
+               and nobody reads it
+   RGeneric  : TensorNetworkGenVector.gate(opts..) -> gate_inds                -> gate_opts *)
+Definition route_opts (nl_dagger : bool) (r : route1d) (transpose dagger : bool) : bool * bool :=
+  match r with
+  | RNonlocal => if nl_dagger then gate_opts transpose dagger else (false, transpose)
+  | _ => gate_opts transpose dagger
+  end.
+
+Definition gate_1d_op (nl_dagger : bool) (c : cmode) (ng : nat) (transpose dagger : bool) : opkind :=
+  op_of (route_opts nl_dagger (dispatch_1d c ng) transpose dagger).
+
+(* ---- MatrixProductOperator.gate_sandwich_with_auto_swap --------------------------------- *)
+(* where=(i, j); absorb := the caller's if given, else "left" for i > j, "right" otherwise -
+   written INTO compress_opts (setdefault), so the same absorb and the caller's options go to
+   every split: d = hi-lo-1 swaps towards, ONE split of the gated pair (an MPO pair always takes
+   the 'split' branch: each tensor has <= 3 unshared labels), and - with swap_back - d swaps back.
+   Sites / final gate position are those of auto_swap_plan / auto_swap_order. *)
+Definition sandwich_absorb_left (i j : nat) (user : option bool) : bool :=
+  match user with Some a => a | None => j <? i end.
+
+Definition sandwich_auto_swap_splits {O : Type} (i j : nat) (user : option bool) (swap_back : bool) (o : O)
+  : list (bool * O) :=
+  let p := auto_swap_plan i j in
+  let d := ap_hi p - ap_lo p - 1 in
+  let a := sandwich_absorb_left i j user in
+  repeat (a, o) d ++ [(a, o)] ++ (if swap_back then repeat (a, o) d else []).
+
+(* ---- labels of the lazily attached SPLIT gate ('split-gate' / 'swap-split-gate') ---------- *)
+(* _tensor_network_gate_inds_lazy_split + gate_inds_with_tn: the two-label gate tensor is
+   factorised into two tensors joined by a bond label `bond`; spatially each part keeps
+   (target label k, fresh label k), across ('swap') the parts hold (target 0, fresh 1) and
+   (target 1, fresh 0).  `bond` is a parameter: the code uses the FIXED name "b". *)
+Definition split_gate_labels (swap : bool) (bond : nat) (tn : net) (i0 i1 : nat) : net :=
+  let bnds := fresh_labels tn [i0; i1] in
+  let b0 := nth 0 bnds 0 in
+  let b1 := nth 1 bnds 0 in
+  [i0; (if swap then b1 else b0); bond] :: [bond; i1; (if swap then b0 else b1)]
+  :: map (map (rename [i0; i1] bnds)) tn.
